@@ -45,6 +45,8 @@ type lcCfg struct {
 	RtspWire    bool     `json:"rtspWire"`    // RTSP publishers are set up completely (SETUP interleaved, RECORD)
 	HttpNotify  bool     `json:"httpNotify"`  // notifications through lal's own HttpNotify worker to a stub web hook
 	WirePubs    []string `json:"wirePubs"`    // RTMP publishers on real loopback connections served by the server's own routine
+	HlsSubs     []string `json:"hlsSubs"`     // HLS subscribers (sessions keyed by session_id, see lifecycle_hls.go)
+	PullRtsp    bool     `json:"pullRtsp"`    // the relay pull goes to an rtsp:// origin (over TCP), see lifecycle_rtsporigin.go
 }
 
 type lcStep struct {
@@ -186,26 +188,43 @@ func lifecycleDriver(env *Env) error {
 	out := make([][]M, len(scs))
 	var wg sync.WaitGroup
 	sem := make(chan struct{}, 12)
+	semHls := make(chan struct{}, 32) // scenarios with HLS subscribers spend their time waiting for the handler's sweep
+	// launch order: the scenarios that mostly sleep first (HLS subscribers wait for the handler's sweep, auto-stop
+	// windows are real time), so that their waits overlap with the work of the others; HLS scenarios have a launcher
+	// and a semaphore of their own
+	var hlsIdx, slowIdx, restIdx []int
 	for i := range scs {
-		if scs[i].Cfg.Leak > 0 {
-			continue // resource counts need a quiet process: run after the others
+		switch {
+		case scs[i].Cfg.Leak > 0: // resource counts need a quiet process: run after the others
+		case len(scs[i].Cfg.HlsSubs) > 0:
+			hlsIdx = append(hlsIdx, i)
+		case scs[i].Cfg.PullAutoMs > 0:
+			slowIdx = append(slowIdx, i)
+		default:
+			restIdx = append(restIdx, i)
 		}
-		wg.Add(1)
-		sem <- struct{}{}
-		go func(i int) {
-			defer wg.Done()
-			defer func() { <-sem }()
-			var evs []M
-			if len(scs[i].Cfg.PushTargets) > 0 && env.Child == "" {
-				// relay push runs in goroutines lal owns: a panic there kills the process, so such a
-				// scenario runs in a child and its death becomes an observation
-				evs = lcRunInChild(scs[i], env.Seed)
-			} else {
-				runLifecycleScenario(scs[i], func(m M) { evs = append(evs, m) })
-			}
-			out[i] = evs
-		}(i)
 	}
+	launch := func(idx []int, sm chan struct{}) {
+		for _, i := range idx {
+			sm <- struct{}{}
+			go func(i int) {
+				defer wg.Done()
+				defer func() { <-sm }()
+				var evs []M
+				if len(scs[i].Cfg.PushTargets) > 0 && env.Child == "" {
+					// relay push runs in goroutines lal owns: a panic there kills the process, so such a
+					// scenario runs in a child and its death becomes an observation
+					evs = lcRunInChild(scs[i], env.Seed)
+				} else {
+					runLifecycleScenario(scs[i], func(m M) { evs = append(evs, m) })
+				}
+				out[i] = evs
+			}(i)
+		}
+	}
+	wg.Add(len(hlsIdx) + len(slowIdx) + len(restIdx))
+	go launch(hlsIdx, semHls)
+	launch(append(slowIdx, restIdx...), sem)
 	wg.Wait()
 	for i := range scs {
 		if scs[i].Cfg.Leak > 0 {
@@ -232,6 +251,7 @@ type lcOrigin struct {
 	parked   []net.Conn
 	serving  net.Conn
 	done     chan struct{} // closed when the connection being served has ended
+	played   chan struct{} // RTSP origin: closed when the PLAY of the connection being served has been answered
 }
 
 func newLcOrigin() *lcOrigin {
@@ -287,7 +307,7 @@ func (o *lcOrigin) close() {
 
 func kindOf(cfg *lcCfg, x string) string {
 	for k, l := range map[string][]string{"rtmpPub": cfg.RtmpPubs, "rtspPub": cfg.RtspPubs, "custPub": cfg.CustPubs,
-		"psPub": cfg.PsPubs, "rtmpSub": cfg.RtmpSubs, "flvSub": cfg.FlvSubs, "wirePub": cfg.WirePubs, "tsSub": cfg.TsSubs} {
+		"psPub": cfg.PsPubs, "rtmpSub": cfg.RtmpSubs, "flvSub": cfg.FlvSubs, "wirePub": cfg.WirePubs, "tsSub": cfg.TsSubs, "hlsSub": cfg.HlsSubs} {
 		for _, y := range l {
 			if y == x {
 				return k
@@ -325,6 +345,12 @@ func runLifecycleScenario(sc *lcScenario, emitEv func(M)) {
 		 "hls":{"enable":true,"out_path":"%s/hls/","fragment_duration_ms":3000,"fragment_num":6,"delete_threshold":6,"cleanup_mode":0},
 		 "record":{"enable_flv":true,"flv_out_path":"%s/flv/","enable_mpegts":true,"mpegts_out_path":"%s/ts/"},
 		 "log":{"level":5,"filename":"","is_to_stdout":false,"assert_behavior":1}}`, outDir, outDir, outDir)
+	}
+	if len(sc.Cfg.HlsSubs) > 0 && !sc.Cfg.Outputs {
+		outDir, _ = os.MkdirTemp("", "lalverif-lc")
+		defer os.RemoveAll(outDir)
+		conf = strings.Replace(conf, `{"conf_version":"v0.4.1",`, `{"conf_version":"v0.4.1",`+lcHlsConf(outDir), 1)
+		lcHlsPlant(outDir, stream)
 	}
 	// relay push targets: gated listeners like the pull origin
 	targets := map[string]*lcOrigin{}
@@ -403,6 +429,11 @@ func runLifecycleScenario(sc *lcScenario, emitEv func(M)) {
 		})
 	}
 	sess := map[string]*lcSession{}
+	var hls *lcHls
+	if len(sc.Cfg.HlsSubs) > 0 && !sc.Cfg.Outputs {
+		hls = newLcHls(sm, stream)
+		defer hls.close()
+	}
 	var wire *lcWire
 	if len(sc.Cfg.WirePubs) > 0 {
 		wire = newLcWire(sm)
@@ -438,6 +469,12 @@ func runLifecycleScenario(sc *lcScenario, emitEv func(M)) {
 		if evs == nil {
 			evs = []M{}
 		}
+		for _, e := range evs {
+			// (the id of an HLS session is only known once the request that created it has returned)
+			if id, ok := e["id"].(string); ok && strings.HasPrefix(id, "?") {
+				e["id"] = nameOf(id[1:])
+			}
+		}
 		if hs == nil {
 			hs = []M{}
 		}
@@ -469,11 +506,18 @@ func runLifecycleScenario(sc *lcScenario, emitEv func(M)) {
 	lastHow, lastK := "", 0
 	emit := func(name, x, ret string) {
 		n, h := drain()
+		// what a step other than a Probe has written to the subscribers (the headers an RTSP origin's description
+		// turns into) is not the observation of a later Probe
+		for _, o := range sess {
+			if (o.kind == "rtmpSub" || o.kind == "flvSub") && o.conn != nil {
+				o.conn.Drain()
+			}
+		}
 		ev := M{"ev": name, "obs": M{"ret": ret, "notif": n, "hook": h, "attempts": origin.count()}}
 		if x != "" {
 			ev["x"] = x
 		}
-		if name == "Misuse" {
+		if name == "Misuse" || name == "HlsPoll" {
 			ev["how"] = lastHow
 		}
 		if name == "Describe" {
@@ -487,10 +531,14 @@ func runLifecycleScenario(sc *lcScenario, emitEv func(M)) {
 				listed = append(listed, nameOf(st.StatPub.SessionId))
 			}
 			for _, s := range st.StatSubs {
-				listed = append(listed, nameOf(s.SessionId))
+				n := nameOf(s.SessionId)
+				if (kindOf(&sc.Cfg, n) == "hlsSub") != (s.Protocol == base.SessionProtocolHlsStr) {
+					n += ":protocol=" + s.Protocol // an HLS session is listed as one, and nothing else is
+				}
+				listed = append(listed, n)
 			}
 		}
-		ev["stat"] = M{"exists": st != nil, "listed": listed}
+		ev["stat"] = M{"exists": st != nil, "listed": listed, "pull": st != nil && st.StatPull.SessionId != ""}
 		if len(targets) > 0 {
 			ev["orph"] = pushOrphans(sm, stream, targets)
 			pa, pn := pushSettle(sm, stream, targets)
@@ -533,6 +581,13 @@ func runLifecycleScenario(sc *lcScenario, emitEv func(M)) {
 		}
 	}
 	autoMs := sc.Cfg.PullAutoMs
+	pullScheme, pullTimeoutMs := "rtmp", 5000
+	if sc.Cfg.PullRtsp {
+		pullScheme = "rtsp"
+		if sc.Sc%3 == 2 {
+			pullTimeoutMs = 60000 // the set-up of these scenarios never completes: its deadline must not end the scenario
+		}
+	}
 	for i, st := range sc.Steps {
 		if st.Name != "Advance" && autoMs > 0 && time.Since(lastStep) > time.Duration(autoMs)*time.Millisecond*4/10 {
 			inconclusive = true // the machine stalled: elapsed time no longer matches the abstract clock
@@ -687,6 +742,54 @@ func runLifecycleScenario(sc *lcScenario, emitEv func(M)) {
 				sm.OnDelHttpflvSubSession(s.flv)
 			}
 			emit("DelSub", x, "ok")
+		case "HlsOpen":
+			ret := "nohls"
+			if hls != nil {
+				remote := lcHlsRemote(sc.Cfg.HlsSubs, x)
+				if ret = hls.open(x, remote, len(x) > 0 && (x[len(x)-1]-'0')%2 == 0); ret == "ok" {
+					// its lal id: the session the stat API lists with this client's address (else: the one just notified)
+					key := ""
+					if sg := sm.StatGroup(stream); sg != nil {
+						for _, s := range sg.StatSubs {
+							if s.RemoteAddr == remote {
+								key = s.SessionId
+							}
+						}
+					}
+					if key == "" {
+						nh.mu.Lock()
+						for _, e := range nh.evs {
+							if id, _ := e["id"].(string); e["ev"] == "sub_start" && strings.HasPrefix(id, "?"+base.UkPreHlsSubSession) {
+								key = id[1:]
+							}
+						}
+						nh.mu.Unlock()
+					}
+					if key != "" {
+						register(x, &lcSession{kind: kind, key: key})
+					}
+				}
+			}
+			waitAttempts(&st)
+			emit("HlsOpen", x, ret)
+		case "HlsPoll":
+			ret := "nohls"
+			if hls != nil {
+				ret = hls.poll(x, st.How)
+			}
+			lastHow = st.How
+			emit("HlsPoll", x, ret)
+		case "HlsLinger":
+			// longer than the timeout plus the sweep period, while the clients keep asking
+			time.Sleep(time.Duration(lcHlsTimeoutMs)*time.Millisecond + 1150*time.Millisecond)
+			emit("HlsLinger", "", "ok")
+		case "HlsExpire":
+			// the client stops asking: the timeout passes and the handler's next sweep ends the session
+			if hls != nil {
+				hls.silence(x)
+				waitFor(time.Duration(lcHlsTimeoutMs)*time.Millisecond+3*time.Second, func() bool { return countNotif("sub_stop") > 0 })
+			}
+			emit("HlsExpire", x, "ok")
 		case "Kick":
 			key := "NOSUCH"
 			if s := sess[x]; s != nil {
@@ -695,7 +798,8 @@ func runLifecycleScenario(sc *lcScenario, emitEv func(M)) {
 				// a session that never came into being still has a well-formed id of its kind
 				key = map[string]string{"rtmpPub": base.UkPreRtmpServerSession, "rtmpSub": base.UkPreRtmpServerSession,
 					"wirePub": base.UkPreRtmpServerSession, "rtspPub": base.UkPreRtspPubSession, "custPub": base.UkPreCustomizePubSessionContext,
-					"psPub": base.UkPrePsPubSession, "flvSub": base.UkPreFlvSubSession, "tsSub": base.UkPreTsSubSession}[kind] + "999999"
+					"psPub": base.UkPrePsPubSession, "flvSub": base.UkPreFlvSubSession, "tsSub": base.UkPreTsSubSession,
+					"hlsSub": base.UkPreHlsSubSession}[kind] + "999999"
 			}
 			resp := sm.CtrlKickSession(base.ApiCtrlKickSessionReq{StreamName: stream, SessionId: key})
 			ret := "ok"
@@ -712,6 +816,11 @@ func runLifecycleScenario(sc *lcScenario, emitEv func(M)) {
 					case <-time.After(3 * time.Second):
 					}
 				}
+			}
+			if ret == "ok" && kind == "hlsSub" && hls != nil {
+				// the kick only flags the session: the handler's sweep (once a second, on its own) reports the departure
+				waitFor(3*time.Second, func() bool { return countNotif("sub_stop") > 0 })
+				hls.silence(x)
 			}
 			if ret == "ok" && kind == "psPub" {
 				// its own goroutine tears it down: wait until the group has no GB28181 input any more
@@ -872,8 +981,8 @@ func runLifecycleScenario(sc *lcScenario, emitEv func(M)) {
 			emit("Tick", "", "ok")
 		case "StartPull":
 			resp := sm.CtrlStartRelayPull(base.ApiCtrlStartRelayPullReq{
-				Url: fmt.Sprintf("rtmp://%s/live/%s", origin.ln.Addr().String(), stream), StreamName: stream,
-				PullTimeoutMs: 5000, PullRetryNum: sc.Cfg.PullRetry, AutoStopPullAfterNoOutMs: sc.Cfg.PullAutoMs})
+				Url: fmt.Sprintf("%s://%s/live/%s", pullScheme, origin.ln.Addr().String(), stream), StreamName: stream, RtspMode: 0,
+				PullTimeoutMs: pullTimeoutMs, PullRetryNum: sc.Cfg.PullRetry, AutoStopPullAfterNoOutMs: sc.Cfg.PullAutoMs})
 			ret := "ok"
 			if resp.ErrorCode != base.ErrorCodeSucc {
 				ret = "fail"
@@ -887,6 +996,9 @@ func runLifecycleScenario(sc *lcScenario, emitEv func(M)) {
 				code = sm.CtrlStopRelayPull(stream).ErrorCode
 			} else {
 				key := base.UkPreRtmpPullSession + "999999"
+				if sc.Cfg.PullRtsp {
+					key = base.UkPreRtspPullSession + "999999"
+				}
 				if g := sm.GetGroup("", stream); g != nil {
 					if sp := sm.StatGroup(stream); sp != nil && sp.StatPull.SessionId != "" {
 						key = sp.StatPull.SessionId
@@ -911,8 +1023,14 @@ func runLifecycleScenario(sc *lcScenario, emitEv func(M)) {
 				origin.serving = c
 				done := make(chan struct{})
 				origin.done = done
+				played := make(chan struct{})
+				origin.played = played
 				origin.mu.Unlock()
-				go func() { _ = rtmp.NewServerSession(nullObserver{}, c).RunLoop(); close(done) }()
+				if sc.Cfg.PullRtsp {
+					go func() { lcRtspOriginServe(c, sc.Sc%2 == 1, sc.Sc%3 == 2, played); close(done) }()
+				} else {
+					go func() { _ = rtmp.NewServerSession(nullObserver{}, c).RunLoop(); close(done) }()
+				}
 			}
 			waitPullNotif()
 			// a refused attempt is disposed by lal: its stop notification follows the refusal
@@ -923,6 +1041,14 @@ func runLifecycleScenario(sc *lcScenario, emitEv func(M)) {
 			ret := "ok"
 			if n0 == 0 {
 				ret = "dup"
+			} else if sc.Cfg.PullRtsp && c != nil {
+				// attached (lal attaches an RTSP pull when the description arrives): let the rest of the set-up run
+				// (every third scenario: only as far as the first SETUP, which the origin never answers)
+				select {
+				case <-origin.played:
+				case <-time.After(3 * time.Second):
+					ret = "noplay"
+				}
 			}
 			emit("PullOk", "", ret)
 		case "PullFail":
@@ -1008,6 +1134,9 @@ func runLifecycleScenario(sc *lcScenario, emitEv func(M)) {
 	}
 	if sc.Cfg.Leak > 0 {
 		lcLeakCycles(sm, stream, sc.Cfg.Leak, emitEv)
+	}
+	if hls != nil && hls.isLate() {
+		inconclusive = true // a client that was meant to keep asking came too late (or the process stalled)
 	}
 	if inconclusive {
 		emitEv(M{"ev": "inconclusive", "sc": sc.Sc})
